@@ -189,6 +189,15 @@ var dirtyFens = []string{
 	"r3k2r/8/8/8/5Pp1/8/8/R3K2R b Kq f3 40 60",
 }
 
+// rootPos: the position a FEN text denotes by the harness's own reading (checked by the specification against its
+// printer); what the implementation made of the text is judged against it, not taken for it
+func rootPos(fen string, b *board.Board) proj.Pos {
+	if bd, stm, cr, ep, hm, fm, ok := gen.ParseCanonFEN(fen); ok {
+		return proj.Pos{Bd: bd, Stm: stm, Cr: cr, Ep: ep, Hm: hm, Fm: fm}
+	}
+	return proj.Project(b)
+}
+
 func (r *rec) load(fen string) *board.Board {
 	b, err := board.FromFEN(fen)
 	if err != nil {
@@ -794,7 +803,7 @@ func (r *rec) transp(corpus []string) {
 			if !playable {
 				continue
 			}
-			rp := proj.Project(root)
+			rp := rootPos(rootFen, root)
 			a, bl := proj.Enc(ma), proj.Enc(mb)
 			r.t++
 			r.emit(&Ev{Ev: "transp", Fen: rootFen, Root: &rp, Ma: &a, Mb: &bl, Ha: proj.H(bb.Hash()), Hb: proj.H(cb.Hash())})
@@ -846,7 +855,7 @@ func (r *rec) nullTransp(rootFen string) {
 	ha, ok1 := run(a)
 	hb, ok2 := run(bq)
 	if ok1 && ok2 {
-		rp := proj.Project(root)
+		rp := rootPos(rootFen, root)
 		ea, eb := proj.Enc(a), proj.Enc(bq)
 		r.t++
 		r.emit(&Ev{Ev: "transp", Fen: rootFen, Root: &rp, Ma: &ea, Mb: &eb, Ha: ha, Hb: hb})
@@ -1176,7 +1185,7 @@ func (r *rec) uciEvent(kind, fen string, ms []move.Move) {
 	if err != nil {
 		panic(err)
 	}
-	rp := proj.Project(root)
+	rp := rootPos(fen, root)
 	cmd := "position fen " + fen
 	if fen == StartPosFEN && r.rng.Intn(2) == 0 {
 		cmd = "position startpos"
@@ -1218,7 +1227,7 @@ func (r *rec) ucimoves(corpus []string) {
 
 func (r *rec) movesEvent(fen string) {
 	root, _ := board.FromFEN(fen)
-	rp := proj.Project(root)
+	rp := rootPos(fen, root)
 	base := root.FEN()
 	var sb strings.Builder
 	var encs []int
@@ -1274,7 +1283,7 @@ func (r *rec) perftEvent(fen string) {
 	if err != nil {
 		panic(err)
 	}
-	rp := proj.Project(root)
+	rp := rootPos(fen, root)
 	// debug.Perft prints its per-move split straight to the process's stdout: keep that out of the way
 	saved := os.Stdout
 	if null, err := os.OpenFile(os.DevNull, os.O_WRONLY, 0); err == nil {
@@ -1350,7 +1359,7 @@ func (r *rec) reevent(path string) {
 			return proj.H(b.Hash())
 		}
 		root, _ := board.FromFEN(e.Fen)
-		rp := proj.Project(root)
+		rp := rootPos(e.Fen, root)
 		r.t++
 		r.emit(&Ev{Ev: "transp", Fen: e.Fen, Root: &rp, Ma: e.Ma, Mb: e.Mb, Ha: run(toMoves(e.Ma)), Hb: run(toMoves(e.Mb))})
 	}
